@@ -449,7 +449,11 @@ fn connect_bound(dtls_started: bool) -> Duration {
 }
 
 /// Build the two configurations of a cell (A, B).  `Err` = harness could not reserve ports.
-fn configs(cell: &Cell) -> Result<(RtcConfiguration, RtcConfiguration), String> {
+/// The third element keeps harness-owned listeners alive that occupy the front of B's
+/// `tcp_port_range` (tcp-only cells): the range is documented as inclusive, so an endpoint whose
+/// first k ports are taken must listen on a later one, the last one included.
+fn configs(cell: &Cell, payload_seed: u64) -> Result<(RtcConfiguration, RtcConfiguration, Vec<std::net::TcpListener>), String> {
+    let mut occupied: Vec<std::net::TcpListener> = vec![];
     let mut a = RtcConfiguration::default();
     let mut b = RtcConfiguration::default();
     for c in [&mut a, &mut b] {
@@ -504,6 +508,10 @@ fn configs(cell: &Cell) -> Result<(RtcConfiguration, RtcConfiguration), String> 
             let (s, e) = free_tcp_range().ok_or("no free tcp port block")?;
             b.tcp_port_range_start = Some(s);
             b.tcp_port_range_end = Some(e);
+            // 0..=3 of the 4 ports are already in use by somebody else (here: the harness)
+            for p in s..s + (payload_seed % 4) as u16 {
+                occupied.push(std::net::TcpListener::bind(("0.0.0.0", p)).map_err(|e| format!("occupy tcp port {p}: {e}"))?);
+            }
         }
         "mux" => {
             a.ice_udp_mux = true;
@@ -517,7 +525,7 @@ fn configs(cell: &Cell) -> Result<(RtcConfiguration, RtcConfiguration), String> 
         }
         _ => {}
     }
-    Ok((a, b))
+    Ok((a, b, occupied))
 }
 
 fn codec(kind: MediaKind) -> RtpCodecParameters {
@@ -764,7 +772,7 @@ async fn run_cell(cell: &Cell, payload_seed: u64, watchdog: Duration) -> Outcome
         obs,
         nontrivial: false,
     };
-    let (cfg_a, cfg_b) = match configs(cell) {
+    let (cfg_a, cfg_b, _occupied) = match configs(cell, payload_seed) {
         Ok(x) => x,
         Err(e) => return inconclusive(format!("harness: {e}"), obs),
     };
@@ -2140,6 +2148,17 @@ pub fn run(args: &Args) -> i32 {
             }
         }
     }
+    if args.replay.is_none() {
+        // tcp-only cells: rotate how much of the listen range is already occupied (0..=3 of 4 ports),
+        // starting with the boundary case where only the last port of the range is free
+        let mut j = 3u64 + args.seed;
+        for (c, ps) in picked.iter_mut() {
+            if c.ice == "tcponly" {
+                *ps = (*ps & !3) | (j % 4);
+                j += 1;
+            }
+        }
+    }
     report.extra.insert(
         "lattice".into(),
         json!({
@@ -2298,6 +2317,9 @@ pub fn run(args: &Args) -> i32 {
         }
         if out.obs.get("connected").is_some() {
             report.count("cells_connected_both", 1);
+            if cell.ice == "tcponly" {
+                report.seen("tcponly_connected_with_n_of_4_range_ports_occupied_by_others", (ps % 4).to_string());
+            }
         }
         if out.obs.get("ekm_equal").is_some() {
             report.count("dtls_role_and_exporter_checked", 1);
